@@ -21,6 +21,11 @@ Measured (all on the working tree, every run):
     process_attribs starts and every access word `w` of a statement naming it, the permission afterwards
     (`itemTrans`, `varTrans`: triples (cur, w, result)).  The model has "a recognised word overwrites" built in;
     `apply_tables_sound` proves the measured tables say exactly that.
+  * the same transitions for the objects FORD keeps for a **separate module procedure whose body stands in the module
+    of its interface** (`probe_own_bodies`): `sepBodyTrans` (long-form body, a member of `subroutines`/`functions`),
+    `sepIfaceTrans` (the interface entries), `sepShortTrans` (short-form body, `modprocedures`);
+    `own_module_body_tables_sound` proves the first two say "a recognised word overwrites" and the third is either
+    that or "nothing reaches the body" (the known defect)
   * the permission a child inherits, for every child kind, in a module / submodule after every sequence of at most
     one bare statement, and in the component part / binding part of a derived type (type public / private) after
     `private`/`public`/`protected` before / after CONTAINS.  The thirteen structural parameters of the model
@@ -679,6 +684,217 @@ end submodule c04_tr_s2
     return {"implShortTakesIface": verdict(short, "`module procedure`"), "implLongTakesIface": verdict(long_, "`module subroutine`")}
 
 
+def probe_own_bodies(pr: Prober) -> dict:
+    """The body of a separate module procedure in the module that declares its interface (one entity, two or three
+    objects in FORD).  For every module default `cur` (none / bare private) and access word `w`: a module with
+    `w :: e1, e2`, the interface bodies `module subroutine e1` / `module function e2`, and in the procedure part the
+    long-form body of e1 (`module subroutine e1(x)`) and the short-form body of e2 (`module procedure e2`).
+    Measured after process_attribs: `sepBodyTrans` = (cur, w, permission of the long-form body), `sepIfaceTrans` =
+    the same for the two interface entries, `sepShortTrans` = for the short-form body."""
+    texts, meta = {}, {}
+    for cur in ("public", "private"):
+        for w in W:
+            name = pr.fresh()
+            texts[name] = "\n".join([
+                f"module {name}"] + (["  private"] if cur == "private" else []) + [
+                f"  {w} :: e1, e2",
+                "  interface",
+                "    module subroutine e1(x)", "      integer :: x", "    end subroutine e1",
+                "    module function e2(x) result(r)", "      integer :: x", "      integer :: r", "    end function e2",
+                "  end interface",
+                "contains",
+                "  module subroutine e1(x)", "    integer :: x", "    x = 1", "  end subroutine e1",
+                "  module procedure e2", "    r = x", "  end procedure e2",
+                f"end module {name}", ""])
+            meta[name] = (cur, w)
+    units = pr.parse_many(texts)
+    body, iface, short = {}, {}, {}
+    for name, (cur, w) in meta.items():
+        u = units[name]
+        if u is None:
+            raise NotFound(f"own-module body probe could not be parsed: {texts[name]!r}")
+        longs = [x.permission for x in u.subroutines if x.name.lower() == "e1"]
+        shorts = [x.permission for x in getattr(u, "modprocedures", []) if x.name.lower() == "e2"]
+        ifs = {x.name.lower(): x.permission for x in u.interfaces}
+        if len(longs) != 1 or len(shorts) != 1 or set(ifs) != {"e1", "e2"}:
+            raise NotFound(f"own-module body probe: long-form bodies {longs}, short-form bodies {shorts}, interface entries "
+                           f"{sorted(ifs)} (expected one e1, one e2, interfaces e1 and e2)")
+        if ifs["e1"] != ifs["e2"]:
+            raise NotFound(f"own-module body probe: `{w} :: e1, e2` leaves the interface entries at {ifs}")
+        for v in longs + shorts + list(ifs.values()):
+            if v not in PERM:
+                raise NotFound(f"own-module body probe: permission {v!r}")
+        body[(cur, w)], short[(cur, w)], iface[(cur, w)] = longs[0], shorts[0], ifs["e1"]
+    tri = lambda d: sorted((c, w, r) for (c, w), r in d.items())
+    return {"sepBodyTrans": tri(body), "sepIfaceTrans": tri(iface), "sepShortTrans": tri(short)}
+
+
+PAGE_PROBE = """module c04_tr_page
+  private
+  integer, public :: v1(2) = 0
+  type, public :: t1
+    private
+    integer, public :: c1
+    integer :: c2
+  contains
+    private
+    procedure, public :: b1 => impl
+    procedure :: b2 => impl
+    generic, public :: gb => b1, b2
+  end type t1
+  public :: g1, e1, a1, s1, f1, ms1, mp1, operator(+)
+  interface g1
+    subroutine x1(a)
+      integer :: a
+    end subroutine x1
+    module procedure s2
+  end interface g1
+  interface operator (+)
+    module procedure f2
+  end interface
+  interface
+    subroutine e1(a)
+      integer :: a
+    end subroutine e1
+  end interface
+  abstract interface
+    subroutine a1(a)
+      integer :: a
+    end subroutine a1
+  end interface
+  interface
+    module subroutine ms1(a)
+      integer :: a
+    end subroutine ms1
+    module subroutine mp1(a)
+      integer :: a
+    end subroutine mp1
+  end interface
+contains
+  subroutine s1(a)
+    integer :: a
+  end subroutine s1
+  function f1(a) result(r)
+    integer :: a, r
+    r = a
+  end function f1
+  function f2(a, b) result(r)
+    integer, intent(in) :: a, b
+    integer :: r
+    r = a
+  end function f2
+  subroutine s2(a)
+    real :: a
+  end subroutine s2
+  subroutine impl(x)
+    class(t1) :: x
+  end subroutine impl
+  module subroutine ms1(a)
+    integer :: a
+  end subroutine ms1
+  module procedure mp1
+    a = 1
+  end procedure mp1
+end module c04_tr_page
+"""
+PKIND = {"var": ".var", "type": ".type", "comp": ".comp", "bind": ".bind", "generic": ".generic", "member": ".member",
+         "ref": ".ref", "wrapper": ".wrapper", "absiface": ".absIface", "func": ".func", "sub": ".sub", "mproc": ".mproc"}
+PSRC = {"own": ".own", "owner": ".owner", "none": ".none"}
+
+
+def probe_page() -> dict:
+    """Whose `permission` does the module page print next to each kind of entity?  A probe module with one entity of
+    every kind is parsed and correlated; then **every object gets a unique token as its permission**
+    (`c04tok<k>`), the real `mod_page.html` is rendered (ford.output.ModulePage, the project's templates) and read
+    with `harness.c04_pages.page_words`.  For every kind of place the token found there is the entity's own
+    (`own`), that of the object it is listed under - module, type, generic interface - (`owner`), or there is none
+    (`none`); anything else (another object's token, a missing line) cannot be expressed by the model and raises."""
+    from harness import common
+    from harness.c04_pages import Renderer, page_words
+
+    common.import_ford()
+    import ford.sourceform as sf
+    from ford.fortran_project import Project
+    from ford.settings import ProjectSettings
+
+    with common.scratch_dir("c04-tr-") as d:
+        d = Path(d)
+        (d / "src").mkdir()
+        (d / "src" / "p.f90").write_text(PAGE_PROBE)
+        sf.namelist = sf.NameSelector()
+        settings = ProjectSettings(src_dir=[d / "src"], output_dir=d / "doc", display=["public", "private", "protected"],
+                                   dbg=True, preprocess=False, graph=False, search=False, warn=False, quiet=True,
+                                   incl_src=False)
+        settings.project_url = str(d / "doc")
+        try:
+            with common.quiet():
+                project = Project(settings)
+                project.correlate()
+            m = {u.name.lower(): u for u in project.modules}["c04_tr_page"]
+            tok = {}
+            count = itertools.count(1)
+
+            def mark(o):
+                t = f"c04tok{next(count)}"
+                o.permission = t
+                tok[id(o)] = t
+                return t
+
+            by = lambda lst, n: [x for x in lst if x.name.lower() == n][0]
+            tm = mark(m)
+            t1 = by(m.types, "t1")
+            g1 = by(m.interfaces, "g1")
+            e1 = by(m.interfaces, "e1")
+            a1 = by(m.absinterfaces, "a1")
+            s2 = by(m.subroutines, "s2")
+            want = {}  # (kind on the page, owner, name) -> (model kind, own token, owner token)
+            want[("var", "", "v1")] = ("var", mark(by(m.variables, "v1")), tm)
+            tt = mark(t1)
+            want[("type", "", "t1")] = ("type", tt, tm)
+            want[("comp", "t1", "c2")] = ("comp", mark(by(t1.variables, "c2")), tt)
+            mark(by(t1.variables, "c1"))
+            want[("bind", "t1", "b2")] = ("bind", mark(by(t1.boundprocs, "b2")), tt)
+            for b in t1.boundprocs:
+                if id(b) not in tok:
+                    mark(b)
+            tg = mark(g1)
+            want[("generic", "", "g1")] = ("generic", tg, tm)
+            want[("member", "g1", "x1")] = ("member", mark(by(g1.routines, "x1")), tg)
+            want[("member", "g1", "s2")] = ("ref", mark(s2), tg)
+            for r in g1.modprocs:
+                mark(r)
+            te = mark(e1)
+            stored_e = mark(e1.procedure)
+            want[("wrapper", "", "e1")] = ("wrapper", te, tm)
+            ta = mark(a1)
+            stored_a = mark(a1.procedure)
+            want[("absiface", "", "a1")] = ("absiface", ta, tm)
+            want[("func", "", "f1")] = ("func", mark(by(m.functions, "f1")), tm)
+            want[("sub", "", "s1")] = ("sub", mark(by(m.subroutines, "s1")), tm)
+            want[("mproc", "", "mp1")] = ("mproc", mark(by(m.modprocedures, "mp1")), tm)
+            for lst in (m.interfaces, m.absinterfaces, m.functions, m.subroutines, m.variables):
+                for o in lst:
+                    if id(o) not in tok:
+                        mark(o)
+            with common.quiet():
+                words = page_words(Renderer(settings, project).module_page(m))
+        except NotFound:
+            raise
+        except Exception as e:
+            raise NotFound(f"page probe: {type(e).__name__}: {e}")
+    seen = {(k, o, n): w for k, o, n, w in words}
+    src = {}
+    for key, (kind, own, owner) in want.items():
+        if key not in seen:
+            raise NotFound(f"page probe: the module page has no {key[0]} line for {key[2]} (found {sorted(seen)})")
+        w = seen[key]
+        src[kind] = "own" if w == own else "owner" if w == owner else "none" if w == "-" else None
+        if src[kind] is None:
+            what = "the stored permission of the wrapped procedure" if w in (stored_e, stored_a) else "another object's permission"
+            raise NotFound(f"page probe: next to the {kind} {key[2]} the module page prints {what} ({w})")
+    return {"pageSrc": [(k, src[k]) for k in PKIND if k in src]}
+
+
 def extract(repo: Path | None = None) -> dict:
     from harness import common
 
@@ -691,8 +907,10 @@ def extract(repo: Path | None = None) -> dict:
         t.update(measure_words(pr, inherited, tinh))
         t.update(probe_getter(pr))
         t.update(measure_passes(pr, t["applyWords"], t["applyVarWords"], t.pop("_specTrans"), t["readGeneric"]))
+        t.update(probe_own_bodies(pr))
         t["probe_parses"] = pr.parses
     t.update(probe_impl())
+    t.update(probe_page())
     t.update(probe_decl_names())
     return t
 
@@ -811,9 +1029,11 @@ def render(t: dict) -> str:
     for k in ("bareSetsChild", "bareSetsSelf", "readGeneric", "readWrapper", "readModule", "implShortTakesIface",
               "implLongTakesIface"):
         L.append(f"def {k} : Bool := {'true' if t[k] else 'false'}")
-    for k in ("itemTrans", "varTrans"):
+    for k in ("itemTrans", "varTrans", "sepBodyTrans", "sepIfaceTrans", "sepShortTrans"):
         L.append(f"def {k} : List (Perm × Perm × Perm) := [" + ", ".join(
             f"({PERM[c]}, {PERM[w]}, {PERM[r]})" for c, w, r in t[k]) + "]")
+
+    L.append("def pageSrc : List (PKind × PSrc) := [" + ", ".join(f"({PKIND[k]}, {PSRC[v]})" for k, v in t["pageSrc"]) + "]")
 
     def ch(c):
         return "'\\''" if c == "'" else "'\\\\'" if c == "\\" else f"'{c}'"
